@@ -140,13 +140,36 @@ Definition clean_same_value (old : kvmap) (ops : list op) (k : bytes) : bool :=
 Definition ptr_invalid (old : kvmap) (ops : list op) (k : bytes) : bool :=
   clean_same_value old ops k && embedded k old && embedded k (contents (run_batch old ops)).
 
+(* A clean leaf that IS the root node of the start tree (a tree of one key)
+   was loaded with the root slot of the START root's version as its pointer
+   (node.go:62-69: index 0 of root.Version).  If the tree still consists of that
+   one leaf at commit, nothing gives it another position (node.go:119-124: "a
+   clean root node ... the root has not changed"); the root node is copied to
+   the new version (pathbadger.go:911-931) but the log keeps the old root slot,
+   which GetWriteLog resolves only for the END root's version
+   (writelog.go:112-113, 126). *)
+Definition sole_key (k : bytes) (m : kvmap) : bool :=
+  match m with
+  | [(k', _)] => bytes_eqb k' k
+  | _ => false
+  end.
+Definition ptr_old_root (old : kvmap) (ops : list op) (k : bytes) : bool :=
+  clean_same_value old ops k && sole_key k old && sole_key k (contents (run_batch old ops)).
+
+(* 0: a position of its own; 1: the invalid pointer; 2: the root slot of the
+   start root's version *)
+Definition ptr_class (old : kvmap) (ops : list op) (k : bytes) : N :=
+  if ptr_invalid old ops k then 1 else if ptr_old_root old ops k then 2 else 0.
+
 (* [pos_of]: the positions the implementation assigned to standalone leaves
-   (its free choice; validated, not predicted) *)
-Definition annotate (pos_of : bytes -> dbkey) (old : kvmap) (ops : list op) : list aentry :=
+   (its free choice; validated, not predicted); [startv]: the version of the
+   start root *)
+Definition annotate (startv : N) (pos_of : bytes -> dbkey) (old : kvmap) (ops : list op) : list aentry :=
   map (fun e : entry =>
          match snd e with
          | None => (fst e, None)
          | Some v => (fst e, Some (v, if ptr_invalid old ops (fst e) then invalid_ptr
+                                      else if ptr_old_root old ops (fst e) then (startv, INDEX_ROOT)
                                       else pos_of (fst e)))
          end) (commit_writelog (run_batch old ops)).
 
@@ -155,10 +178,10 @@ Definition end_store (pos_of : bytes -> dbkey) (new : kvmap) : nstore :=
   map (fun e => (pos_of (fst e), SLeaf (fst e) (snd e))) new.
 
 (* what pathbadger serves for the pair (old, result of the batch) *)
-Definition pb_served (pos_of : bytes -> dbkey) (rootnode : option snode) (endv : N)
+Definition pb_served (startv : N) (pos_of : bytes -> dbkey) (rootnode : option snode) (endv : N)
   (old : kvmap) (ops : list op) : option writelog :=
   resolve (end_store pos_of (contents (run_batch old ops))) rootnode endv
-          (make_internal (annotate pos_of old ops)).
+          (make_internal (annotate startv pos_of old ops)).
 
 (* ---------- correspondence runner ---------- *)
 Record pbcase := mkPb {
@@ -172,22 +195,27 @@ Record pbcase := mkPb {
 }.
 Record pbobs := mkPbObs {
   po_shape : list (option bytes);   (* per stored entry: Some key = deletion of key, None = insertion *)
-  po_invalid : list bool;           (* per stored entry: references the invalid position *)
+  po_class : list N;                (* per stored entry: 0 own position, 1 the invalid pointer,
+                                       2 the root slot of an older version *)
   po_served : option writelog       (* GetWriteLog, in stored order; None = error *)
 }.
 Definition ientry_shape (e : ientry) : option bytes :=
   match e with IDelete k => Some k | _ => None end.
-Definition ientry_invalid (e : ientry) : bool :=
-  match e with IInsert p => is_invalid p | _ => false end.
+Definition ientry_class (endv : N) (e : ientry) : N :=
+  match e with
+  | IInsert p => if is_invalid p then 1
+                 else if (snd p =? INDEX_ROOT) && (fst p <? endv) then 2 else 0
+  | _ => 0
+  end.
 Definition run_pbcase (c : pbcase) : pbobs :=
   mkPbObs
     (map (fun e : entry => match snd e with None => Some (fst e) | Some _ => None end) (pb_clog c))
     (map (fun e : entry => match snd e with
-                           | None => false
-                           | Some _ => ptr_invalid (pb_old c) (pb_ops c) (fst e)
+                           | None => 0
+                           | Some _ => ptr_class (pb_old c) (pb_ops c) (fst e)
                            end) (pb_clog c))
     (resolve (pb_store c) (pb_root c) (pb_endv c) (pb_raw c)).
 Definition pbobs_eqb (a b : pbobs) : bool :=
   list_eqb obytes_eqb (po_shape a) (po_shape b) &&
-  list_eqb Bool.eqb (po_invalid a) (po_invalid b) &&
+  list_eqb N.eqb (po_class a) (po_class b) &&
   olog_eqb (po_served a) (po_served b).
